@@ -98,8 +98,10 @@ CHECKS = {
              "parameters of the theorems; known finding abort-200-is-204.",
         technique="Coq proof (case analysis, list induction) + vm_compute "
                   "correspondence + source-to-Coq translation of "
-                  "state_from_table, error_from_table with proved equality to "
-                  "the model"),
+                  "state_from_table, error_from_table, HTTPException "
+                  "(__init__, make_response, response, status_code), abort, "
+                  "redirect and RedirectResponse.__init__ with proved "
+                  "equality to the model"),
     "C05": dict(
         text="Theorems: to_response/make_response for each return shape "
              "(text -> UTF-8 bytes, bytes verbatim, dict/list -> JSON text "
@@ -249,8 +251,9 @@ CHECKS = {
         technique="Coq proof (induction over reader lines with a three-phase "
                   "invariant) + vm_compute correspondence + source-to-Coq "
                   "translation of read_lines_to_outerboundary, _write, "
-                  "make_file, valid_boundary with proved equality to the "
-                  "model"),
+                  "make_file, valid_boundary, _skip_to_boundary, skip_lines "
+                  "and read_multi (header loop, part loop) with proved "
+                  "equality to the model"),
     "C09": dict(
         text="Theorems over the model of CachedInput.read/readline (loop "
              "with explicit fuel), for all bodies, declared lengths, block "
@@ -295,8 +298,10 @@ CHECKS = {
              "multipart-raw-stream-reads-past-content-length.",
         technique="Coq proof (lia-based UTF-8 and percent codec round trips, "
                   "list induction) + vm_compute correspondence + "
-                  "source-to-Coq translation of the request-data containers "
-                  "and the constructor decisions with proved equality to "
+                  "source-to-Coq translation of the request-data containers, "
+                  "the constructor decisions and the head of "
+                  "Request.__init__ (headers from the CGI variables, media "
+                  "type, charset, content length) with proved equality to "
                   "the model + generated census of input read sites (policy "
                   "theorem by vm_compute)"),
     "C11": dict(
@@ -367,8 +372,9 @@ CHECKS = {
              "the byte level (_partial), the rest is monitored.",
         technique="Coq proof (Z.lxor algebra, invariant over operation "
                   "histories) + vm_compute correspondence + source-to-Coq "
-                  "translation of session.hidden with proved equality to the "
-                  "model"),
+                  "translation of session.hidden and of "
+                  "PoorSession.write / destroy / load / header with proved "
+                  "equality to the model"),
     "C14": dict(
         text="Theorems: for EVERY history of operations (construction, add, "
              "add_header with parameters, assignment, deletion, setdefault, "
